@@ -193,7 +193,7 @@ def band_tables(run):
 
 def c12(run):
     band_tables(run)
-    t = run.record("band", "pingslot", n=T(run, 300, 6000))
+    t = run.record("band", "pingslot", n=T(run, 300, 60000))
     run.validate("band", t, "Trace_band", label="(V) ping-slot frequency for seeded DevAddr / beacon times", chunk=20000)
     run.require_kinds("band/bandcfg", "band/pingslot")
     run.rc = run.finish(assumptions=BAND_ASSUME, exhaustive=False)
@@ -201,7 +201,7 @@ def c12(run):
 
 def c13(run):
     band_tables(run)
-    t = run.record("chplan", "history", n=T(run, 56, 1400))
+    t = run.record("chplan", "history", n=T(run, 56, 7000))
     run.validate("chplan", t, "Trace_chplan", label="(V) enabled data-rates stay defined along channel-plan histories, all 14 bands", chunk=T(run, 150, 1500), group_on="reset")
     t = run.record("chplan", "drranges")
     run.validate("chplan", t, "Trace_chplan", label="(V) every band x every data-rate range a..b added as a custom channel", chunk=300, group_on="reset")
@@ -212,9 +212,9 @@ def c13(run):
 
 def c14(run):
     run.design_check("ChannelPlanModel", workers=8, env={"VERIF_GEN": run.tier, "VERIF_GENMODE": "plan"})
-    t = run.record("chplan", "plan", n=T(run, 70, 1400))
+    t = run.record("chplan", "plan", n=T(run, 70, 7000))
     run.validate("chplan", t, "Trace_chplan", label="(V) histories x structured/random device sets, all 14 bands", chunk=T(run, 400, 4000))
-    t = run.record("chplan", T(run, "planexh10", "planexh"), n=T(run, 4, 8))
+    t = run.record("chplan", T(run, "planexh10", "planexh"), n=T(run, 4, 24))
     run.validate("chplan", t, "Trace_chplan", label="(V) ALL device subsets of <=%s-channel plans" % T(run, 10, 16), chunk=T(run, 800, 8000))
     run.exhaustive.append("all 2^n device subsets of the generated <=%s-channel plans" % T(run, 10, 16))
     run.require_kinds("chplan/plan")
@@ -223,7 +223,7 @@ def c14(run):
 
 def c15(run):
     run.design_check("ChannelPlanModel", workers=8, env={"VERIF_GEN": run.tier, "VERIF_GENMODE": "history"})
-    t = run.record("chplan", "history", n=T(run, 56, 1400))
+    t = run.record("chplan", "history", n=T(run, 56, 14000))
     run.validate("chplan", t, "Trace_chplan", label="(V) operation histories with arbitrary int arguments, all 14 bands", chunk=T(run, 150, 1500), group_on="reset")
     t = run.record("chplan", "drranges")
     run.validate("chplan", t, "Trace_chplan", label="(V) every band x every data-rate range a..b added as a custom channel", chunk=300, group_on="reset")
@@ -323,9 +323,9 @@ def c17(run):
 def c16(run):
     run.selftest()
     run.design_check("JoinProcModel", workers=8)
-    t = run.record("join", "requests", n=T(run, 240, 6000))
+    t = run.record("join", "requests", n=T(run, 240, 30000))
     run.validate("join", t, "Trace_join", label="(V) join/rejoin requests through the real http.Handler, sequential and concurrent batches", chunk=T(run, 15, 100))
-    t = run.record("join", "misc", n=T(run, 200, 5000))
+    t = run.record("join", "misc", n=T(run, 200, 20000))
     run.validate("join", t, "Trace_join", label="(V) HomeNSReq flow and malformed requests", chunk=5000)
     run.require_kinds("join/joinsrv", "join/homens", "join/joinbad")
     run.rc = run.finish(assumptions=["independent device / NS / AS model spec/lorawan/JoinProc.tla with AES, AES-CMAC and RFC 3394 in TLA+",
@@ -369,7 +369,7 @@ def c10(run):
     run.validate("own", t, "Trace_own", label="(V) seeded decode/overwrite/encode/encrypt-in-place/inspect histories", chunk=T(run, 200, 1200), group_on="reset")
     t = run.record("own", "reuse", n=T(run, 20, 1500))
     run.validate("own", t, "Trace_own", label="(V) decode into used vs fresh value: 29 MAC payloads, CFList, frames, application layer", chunk=2000)
-    t = run.record("own", "bands", n=T(run, 56, 1400))
+    t = run.record("own", "bands", n=T(run, 56, 5600))
     run.validate("own", t, "Trace_own", label="(V) band instances share no mutable state", chunk=20)
     # concurrency
     ccases = os.path.join(run.scratch, "regconc-cases.ndjson")
